@@ -15,6 +15,8 @@ def run(tier, seed):
     nsched = 6 if tier == "quick" else 40
     maxpts = 60 if tier == "quick" else 400
     scheds, r = tracecheck.gen_schedules("c04", "crash", nsched, seed, maxlen=36)
+    import directed
+    scheds = directed.c04_family(tier) + scheds
     shards = min(8, len(scheds)) if tier == "quick" else 12
     chunks = [scheds[i::shards] for i in range(shards)]
 
